@@ -2,6 +2,7 @@ import GN.Props.C17
 open GN.Props.C17
 #print axioms every_function_has_a_role
 #print axioms race_free
+#print axioms race_free_jobs
 #print axioms protocol_exceptions
 #print axioms stop_orders_the_exception
 #print axioms fields_accounted_for
